@@ -62,7 +62,7 @@ byte_buffer_space(ByteBuffer *b, void *data, size_t size)
 int
 byte_buffer_add(ByteBuffer *b, const void *data, size_t size)
 {
-    if (b->size < (b->used + size)) {
+    if (size > (b->size - b->used)) {
         return -ENOMEM;
     }
 
